@@ -555,4 +555,281 @@ theorem assemble_nullsLast {R : Nat → Nat → Prop} (N I : List Nat) (lim : Na
         rw [this] at hb; simp at hb
       · exact hNN a (hNt a ha) b (hNd b hb)
 
+
+theorem applyDesc_totalPreCmp {α : Type} {cmp : α → α → Ordering} (h : TotalPreCmp cmp) (d : Bool) :
+    TotalPreCmp (fun a b => applyDesc d (cmp a b)) := by
+  cases d
+  · simpa [applyDesc] using h
+  · simpa [applyDesc] using h.rev
+
+theorem partitionValidity_perm {α : Type} (slot : Nat → Option α) (l : List Nat) :
+    ((l.filterMap (fun i => (slot i).map (fun v => (i, v)))).map (·.1) ++
+      l.filter (fun i => (slot i).isNone)).Perm l := by
+  induction l with
+  | nil => simp
+  | cons x xs ih =>
+    cases hx : slot x with
+    | none =>
+      simp only [List.filterMap_cons, hx, Option.map_none, List.filter_cons, Option.isNone_none, if_true]
+      exact List.perm_middle.trans (List.Perm.cons x ih)
+    | some v =>
+      simp only [List.filterMap_cons, hx, Option.map_some, List.map_cons, List.filter_cons,
+        Option.isNone_some, List.cons_append]
+      exact List.Perm.cons x ih
+
+def vLimitOf (limit : Option Nat) (nf : Bool) (nn nv : Nat) : Nat :=
+  match limit, nf with
+  | some l, true => min (l - nn) nv
+  | _, _ => nv
+
+def assembleOut (nf : Bool) (nulls I : List Nat) (lim : Nat) : List Nat :=
+  match nf with
+  | true => nulls.take (min nulls.length lim) ++ I.take (lim - (nulls.take (min nulls.length lim)).length)
+  | false => I.take lim ++ nulls.take (lim - (I.take lim).length)
+
+theorem sortImpl_eq {α : Type} (sortBy : PartialSorter) (o : SortOptions)
+    (valids : List (Nat × α)) (nulls : List Nat) (limit : Option Nat) (cmp : α → α → Ordering) :
+    sortImpl sortBy o valids nulls limit cmp =
+      assembleOut o.nullsFirst nulls
+        ((sortBy (fun (a b : Nat × α) => applyDesc o.descending (cmp a.2 b.2))
+          (vLimitOf limit o.nullsFirst nulls.length valids.length) valids).map (·.1))
+        (min (limit.getD (valids.length + nulls.length)) (valids.length + nulls.length)) := by
+  cases o with
+  | mk d nf => cases d <;> cases nf <;> rfl
+
+theorem sortImpl_ok {α : Type} (sortBy : PartialSorter) (hs : SortContract sortBy)
+    (cmp : α → α → Ordering) (hc : TotalPreCmp cmp) (o : SortOptions)
+    (valids : List (Nat × α)) (nulls : List Nat) (limit : Option Nat) (slot : Nat → Option α)
+    (hv : ∀ p ∈ valids, slot p.1 = some p.2) (hn : ∀ i ∈ nulls, slot i = none) :
+    let R := fun i j => compareSlot cmp o (slot i) (slot j) ≠ .gt
+    let len := valids.length + nulls.length
+    let out := sortImpl sortBy o valids nulls limit cmp
+    out.length = min (limit.getD len) len ∧ out.Pairwise R ∧
+      ∃ rest, (out ++ rest).Perm (valids.map (·.1) ++ nulls) ∧ ∀ a ∈ out, ∀ b ∈ rest, R a b := by
+  intro R len out
+  let c : (Nat × α) → (Nat × α) → Ordering := fun a b => applyDesc o.descending (cmp a.2 b.2)
+  have hcT : TotalPreCmp c := (applyDesc_totalPreCmp hc o.descending).comap (fun p : Nat × α => p.2)
+  let vLimit := vLimitOf limit o.nullsFirst nulls.length valids.length
+  have hvl : vLimit ≤ valids.length := by
+    show vLimitOf limit o.nullsFirst nulls.length valids.length ≤ valids.length
+    unfold vLimitOf; split <;> omega
+  let S := sortBy c vLimit valids
+  have hSperm : S.Perm valids := hs.perm c vLimit valids hcT hvl
+  have hSsorted := hs.sorted c vLimit valids hcT hvl
+  have hSrest := hs.le_rest c vLimit valids hcT hvl
+  have hSmem : ∀ p ∈ S, slot p.1 = some p.2 := fun p hp => hv p (hSperm.mem_iff.mp hp)
+  have hRc : ∀ p ∈ S, ∀ q ∈ S, c p q ≠ .gt → R p.1 q.1 := by
+    intro p hp q hq h
+    show compareSlot cmp o (slot p.1) (slot q.1) ≠ .gt
+    rw [hSmem p hp, hSmem q hq]; exact h
+  let I := S.map (·.1)
+  have hIlen : I.length = valids.length := by simp [I, hSperm.length_eq]
+  have hout : out = assembleOut o.nullsFirst nulls I (min (limit.getD len) len) :=
+    sortImpl_eq sortBy o valids nulls limit cmp
+  have hNN : ∀ a ∈ nulls, ∀ b ∈ nulls, R a b := by
+    intro a ha b hb
+    show compareSlot cmp o (slot a) (slot b) ≠ .gt
+    rw [hn a ha, hn b hb]; simp [compareSlot]
+  have hImem : ∀ b ∈ I, ∃ q ∈ S, q.1 = b := by
+    intro b hb; simpa [I] using hb
+  have hperm2 : (I).Perm (valids.map (·.1)) := hSperm.map _
+  have hlim : min (limit.getD len) len ≤ nulls.length + I.length := by rw [hIlen]; omega
+  cases hnf : o.nullsFirst with
+  | true =>
+    rw [hnf] at hout; simp only [assembleOut] at hout
+    have hNI : ∀ a ∈ nulls, ∀ b ∈ I, R a b := by
+      intro a ha b hb
+      obtain ⟨q, hq, rfl⟩ := hImem b hb
+      show compareSlot cmp o (slot a) (slot q.1) ≠ .gt
+      rw [hn a ha, hSmem q hq]; simp [compareSlot, hnf]
+    have hI : (I.take vLimit).Pairwise R := by
+      show ((S.map (·.1)).take vLimit).Pairwise R
+      rw [← List.map_take, List.pairwise_map]
+      exact hSsorted.imp_of_mem (fun {p q} hp hq h =>
+        hRc p (List.mem_of_mem_take hp) q (List.mem_of_mem_take hq) h)
+    have hIr : ∀ a ∈ I.take vLimit, ∀ b ∈ I.drop vLimit, R a b := by
+      intro a ha b hb
+      have ha' : a ∈ (S.take vLimit).map (·.1) := by rw [List.map_take]; exact ha
+      have hb' : b ∈ (S.drop vLimit).map (·.1) := by rw [List.map_drop]; exact hb
+      obtain ⟨p, hp, rfl⟩ := List.mem_map.mp ha'
+      obtain ⟨q, hq, rfl⟩ := List.mem_map.mp hb'
+      exact hRc p (List.mem_of_mem_take hp) q (List.mem_of_mem_drop hq) (hSrest p hp q hq)
+    have hr : min (limit.getD len) len - min nulls.length (min (limit.getD len) len) = 0 ∨
+        min (limit.getD len) len - min nulls.length (min (limit.getD len) len) = vLimit := by
+      show _ ∨ _ = vLimitOf limit o.nullsFirst nulls.length valids.length
+      rw [hnf]
+      cases limit with
+      | none => simp only [Option.getD_none, vLimitOf]; omega
+      | some l => simp only [Option.getD_some, vLimitOf]; omega
+    obtain ⟨h1, h2, h3, h4⟩ := assemble_nullsFirst (R := R) nulls I vLimit _ hNN hNI hI hIr hlim hr
+    rw [hout]
+    refine ⟨h1, h2, _, h3.trans ?_, h4⟩
+    exact (List.perm_append_comm).trans (List.Perm.append_right _ hperm2)
+  | false =>
+    rw [hnf] at hout; simp only [assembleOut] at hout
+    have hvL : vLimit = valids.length := by
+      show vLimitOf limit o.nullsFirst nulls.length valids.length = valids.length
+      rw [hnf]; unfold vLimitOf; split <;> simp_all
+    have hIN : ∀ a ∈ I, ∀ b ∈ nulls, R a b := by
+      intro a ha b hb
+      obtain ⟨q, hq, rfl⟩ := hImem a ha
+      show compareSlot cmp o (slot q.1) (slot b) ≠ .gt
+      rw [hn b hb, hSmem q hq]; simp [compareSlot, hnf]
+    have hI : I.Pairwise R := by
+      show (S.map (·.1)).Pairwise R
+      rw [List.pairwise_map]
+      have : S.take vLimit = S := by rw [hvL, ← hSperm.length_eq]; exact List.take_length
+      rw [this] at hSsorted
+      exact hSsorted.imp_of_mem (fun {p q} hp hq h => hRc p hp q hq h)
+    obtain ⟨h1, h2, h3, h4⟩ := assemble_nullsLast (R := R) nulls I _ hNN hIN hI hlim
+    rw [hout]
+    exact ⟨h1, h2, _, h3.trans (List.Perm.append_right _ hperm2), h4⟩
+
+
+theorem rowCmp_totalPreCmp {α : Type} {cmp : α → α → Ordering} (h : TotalCmp cmp) (o : SortOptions)
+    (col : List (Option α)) : TotalPreCmp (rowCmp cmp o col) :=
+  (compareSlot_totalCmp h o).toTotalPreCmp.comap (fun i => col.getD i none)
+
+theorem lexCmp_totalPreCmp {ι : Type} (cs : List (ι → ι → Ordering))
+    (h : ∀ c ∈ cs, TotalPreCmp c) : TotalPreCmp (lexCmp cs) := by
+  induction cs with
+  | nil => exact ⟨fun _ => rfl, fun _ _ => rfl, fun _ _ _ _ _ => by simp [lexCmp]⟩
+  | cons c cs ih =>
+    have hc := h c (by simp)
+    have ih := ih (fun c' hc' => h c' (by simp [hc']))
+    refine ⟨?_, ?_, ?_⟩
+    · intro a; simp [lexCmp, hc.refl, ih.refl]
+    · intro a b; simp only [lexCmp]; rw [hc.swap a b]
+      cases c a b <;> simp [Ordering.swap, ih.swap a b]
+    · intro x y z h1 h2
+      simp only [lexCmp] at h1 h2 ⊢
+      exact lexStep_trans hc (ih.trans x y z) h1 h2
+
+theorem sortToIndices_ok {α : Type} (sortBy : PartialSorter) (hs : SortContract sortBy)
+    (cmp : α → α → Ordering) (hc : TotalPreCmp cmp) (o : SortOptions)
+    (col : List (Option α)) (limit : Option Nat) :
+    isSortedPrefix (rowCmp cmp o col) (List.range col.length)
+      (sortToIndices sortBy cmp o col limit) (min (limit.getD col.length) col.length) := by
+  unfold sortToIndices
+  split
+  · rename_i h
+    have hk : min (limit.getD col.length) col.length = 0 := by
+      rcases h with h | h
+      · have : col = [] := by simpa using h
+        simp [this]
+      · simp [h]
+    rw [hk]
+    exact ⟨rfl, List.Pairwise.nil, List.range col.length, by simp [isPerm], by simp⟩
+  · have hp := partitionValidity_perm (fun i => col.getD i none) (List.range col.length)
+    have hlen := hp.length_eq
+    simp only [List.length_append, List.length_map, List.length_range] at hlen
+    have := sortImpl_ok sortBy hs cmp hc o (partitionValidity col).1 (partitionValidity col).2 limit
+      (fun i => col.getD i none)
+      (by
+        intro p hp
+        obtain ⟨i, _, hi⟩ := List.mem_filterMap.mp hp
+        cases hsl : col.getD i none with
+        | none => rw [hsl] at hi; cases hi
+        | some v =>
+          rw [hsl] at hi
+          have : (i, v) = p := Option.some.inj hi
+          subst this; exact hsl)
+      (by
+        intro i hi
+        have := (List.mem_filter.mp hi).2
+        cases hsl : col.getD i none with
+        | none => rfl
+        | some v => rw [hsl] at this; cases this)
+    simp only [] at this
+    obtain ⟨h1, h2, rest, h3, h4⟩ := this
+    have hl : (partitionValidity col).1.length + (partitionValidity col).2.length = col.length := hlen
+    rw [hl] at h1
+    exact ⟨h1, h2, rest, h3.trans hp, h4⟩
+
+theorem lexsortToIndices_ok (sortBy : PartialSorter) (hs : SortContract sortBy)
+    (cs : List (Nat → Nat → Ordering)) (hcs : ∀ c ∈ cs, TotalPreCmp c)
+    (rowCount : Nat) (limit : Option Nat) :
+    isSortedPrefix (lexCmp cs) (List.range rowCount)
+      (lexsortToIndices sortBy cs rowCount limit) (min (limit.getD rowCount) rowCount) := by
+  have hfun : lexCompareModel cs = lexCmp cs := by funext i j; exact lexCompareModel_eq cs i j
+  have hT := lexCmp_totalPreCmp cs hcs
+  unfold lexsortToIndices
+  simp only [hfun]
+  generalize hk : min (limit.getD rowCount) rowCount = k
+  have hkl : k ≤ (List.range rowCount).length := by simp; omega
+  split
+  · rename_i h0; rw [h0]
+    exact ⟨rfl, List.Pairwise.nil, List.range rowCount, by simp [isPerm], by simp⟩
+  · have hp := hs.perm (lexCmp cs) k (List.range rowCount) hT hkl
+    refine ⟨?_, hs.sorted _ k _ hT hkl, (sortBy (lexCmp cs) k (List.range rowCount)).drop k, ?_,
+      hs.le_rest _ k _ hT hkl⟩
+    · rw [List.length_take, hp.length_eq]; simp at hkl ⊢; omega
+    · unfold isPerm
+      rw [List.take_append_drop]; exact hp
+
+
+theorem compareOp_eq_spec {α : Type} (cmp : α → α → Ordering) (h : TotalPreCmp cmp) (dflt : α)
+    (op : CmpOp) (a b : Option α) :
+    compareOp (fun x y => cmp x y == .eq) (fun x y => cmp x y == .lt) dflt op a b
+      = kernelSpec cmp op a b := by
+  cases a with
+  | none => cases b <;> cases op <;> simp [compareOp, compareOpRow, kernelSpec, compareSlot, applyOp]
+  | some x =>
+    cases b with
+    | none => cases op <;> simp [compareOp, compareOpRow, kernelSpec, compareSlot, applyOp]
+    | some y =>
+      have hs := h.swap x y
+      cases op <;> simp [compareOp, compareOpRow, kernelSpec, compareSlot, applyOp, applyDesc, CmpOp.onOrd, hs] <;>
+        cases cmp x y <;> simp [Ordering.swap]
+
+
+
+def scmp {w : Nat} (x y : BitVec w) : Ordering := if x.slt y then .lt else if x = y then .eq else .gt
+
+theorem scmp_eq_compare {w : Nat} (x y : BitVec w) : scmp x y = compare x.toInt y.toInt := by
+  unfold scmp
+  have hs : x.slt y = decide (x.toInt < y.toInt) := rfl
+  rw [hs]
+  by_cases h : x.toInt < y.toInt
+  · simp [h, Int.compare_eq_lt.mpr h]
+  · by_cases e : x = y
+    · subst e; simp
+    · have hne : x.toInt ≠ y.toInt := fun h' => e (BitVec.toInt_inj.mp h')
+      have : y.toInt < x.toInt := by omega
+      simp [h, e, Int.compare_eq_gt.mpr this]
+
+theorem TotalCmp.comap_inj {α β : Type} {cmp : α → α → Ordering} (h : TotalCmp cmp) (f : β → α)
+    (hf : ∀ x y, f x = f y → x = y) : TotalCmp (fun x y => cmp (f x) (f y)) where
+  toTotalPreCmp := h.toTotalPreCmp.comap f
+  eq_imp x y e := hf x y (h.eq_imp _ _ e)
+
+theorem scmp_totalCmp {w : Nat} : TotalCmp (scmp (w := w)) := by
+  have : (scmp (w := w)) = fun x y => compare x.toInt y.toInt := by
+    funext x y; exact scmp_eq_compare x y
+  rw [this]
+  exact intCmp_totalCmp.comap_inj (fun x : BitVec w => x.toInt) (fun x y h => BitVec.toInt_inj.mp h)
+
+theorem floatCmpBV_totalCmp {w : Nat} (hinj : ∀ a b : BitVec w, floatKey a = floatKey b → a = b) :
+    TotalCmp (floatCmpBV (w := w)) :=
+  scmp_totalCmp.comap_inj floatKey hinj
+
+/-- three-way form -/
+theorem floatCmpBV_eq_spec {w : Nat} (hw : 0 < w)
+    (hsle : ∀ a b : BitVec w, (floatKey a).sle (floatKey b) = totalLeBV a b)
+    (a b : BitVec w) : floatCmpBV a b = floatTotalCmp w a.toNat b.toNat := by
+  unfold floatTotalCmp
+  rw [← totalLeBV_eq_spec hw, ← totalLeBV_eq_spec hw, ← hsle, ← hsle]
+  show scmp (floatKey a) (floatKey b) = _
+  rw [scmp_eq_compare]
+  have h1 : (floatKey a).sle (floatKey b) = decide ((floatKey a).toInt ≤ (floatKey b).toInt) := rfl
+  have h2 : (floatKey b).sle (floatKey a) = decide ((floatKey b).toInt ≤ (floatKey a).toInt) := rfl
+  rw [h1, h2]
+  rcases Int.lt_trichotomy (floatKey a).toInt (floatKey b).toInt with h | h | h
+  · have h3 : (floatKey a).toInt ≤ (floatKey b).toInt := by omega
+    have h4 : ¬ (floatKey b).toInt ≤ (floatKey a).toInt := by omega
+    rw [Int.compare_eq_lt.mpr h]; simp [h3, h4]
+  · rw [h]; simp
+  · have h4 : ¬ (floatKey a).toInt ≤ (floatKey b).toInt := by omega
+    rw [Int.compare_eq_gt.mpr h]; simp [h4]
+
 end ArrowModel.C10
